@@ -163,3 +163,28 @@ package diff
 //@   loop 1 modifies state.virtualBinOps
 //@   loop 1 modifies state.swappedBlocks
 //@   loop 2 invariant [C03.swap] [C04.norm] 0 <= #i && #i <= len(*refs) && forall k in 0..#i :: hasType((*refs)[k], "*ssa.DebugRef") || (*refs)[k] == iface(ifInstr, "*ssa.If")
+
+// ---- C16: every function, method and function literal with a body is fingerprinted
+// eligible: not a compiler-made wrapper (the package initialiser, which holds the package-level function literals, is).
+//@ pred eligible(fn *ssa.Function) = fn.Synthetic == "" || purecall("(*golang.org/x/tools/go/ssa.Function).Name", fn) == "init"
+//@ func processFunctionAndAnons
+//@   noframe
+//@   requires results != nil && visited != nil
+//@   owned results visited
+//@   ensures [C16.enum] visited[fn]
+//@   ensures [C16.enum] forall f: *ssa.Function :: old(visited[f]) ==> visited[f]
+//@   ensures [C16.enum] !old(visited[fn]) && eligible(fn) ==> forall k in 0..len(fn.AnonFuncs) :: visited[fn.AnonFuncs[k]]
+//@   ensures [C16.enum] len(*results) >= old(len(*results))
+//@   ensures [C16.enum] !old(visited[fn]) && eligible(fn) && len(fn.Blocks) > 0 ==> len(*results) > old(len(*results))
+//@   loop 1 complete [C16.enum]
+//@   loop 1 invariant [C16.enum] 0 <= #i && #i <= len(fn.AnonFuncs) && visited[fn] && (forall k in 0..#i :: visited[fn.AnonFuncs[k]])
+//@   loop 1 invariant [C16.enum] (forall f: *ssa.Function :: old(visited[f]) ==> visited[f]) && len(*results) >= pre(len(*results))
+
+//@ func FingerprintPackages
+//@   noframe
+//@   protocol-only C16
+//@   loop 1 complete [C16.enum]
+//@   loop 2 complete [C16.enum]
+//@   loop 3 complete [C16.enum]
+// every function member of a package visited so far has been handed to processFunctionAndAnons (which marks it)
+//@   loop 2 invariant [C16.enum] forall m in #visited :: hasType(ssaPkg.Members[m], "*ssa.Function") ==> visited[dyn(ssaPkg.Members[m], "*ssa.Function")]
